@@ -32,8 +32,12 @@ def loops_in(fnode):
     return out
 
 
-def assigned_names(stmts):
+def assigned_names(stmts, indirect=None):
+    """Names (re)bound by the statements; `indirect` collects names only reached through a
+    subscript/attribute store or a method call (mutation of a local container value)."""
     names = set()
+    if indirect is None:
+        indirect = set()
 
     def tgt(t):
         if isinstance(t, ast.Name):
@@ -47,7 +51,7 @@ def assigned_names(stmts):
             while isinstance(root, (ast.Subscript, ast.Attribute)):
                 root = root.value
             if isinstance(root, ast.Name):
-                names.add(root.id)
+                indirect.add(root.id)
         elif isinstance(t, ast.Starred):
             tgt(t.value)
 
@@ -93,7 +97,7 @@ def assigned_names(stmts):
                 while isinstance(root, (ast.Subscript, ast.Attribute)):
                     root = root.value
                 if isinstance(root, ast.Name):
-                    names.add(root.id)
+                    indirect.add(root.id)
             self.generic_visit(n)
 
     v = V()
@@ -590,6 +594,8 @@ class StmtMixin:
             return self.unroll(s, st, fr, list(it.d.keys()))
         if isinstance(it, range):
             return self.unroll(s, st, fr, list(it))
+        if isinstance(ops.kind_of(it), (KDict, KSet)):
+            it = self.snapshot_keys(st, it)
         seqv = self.as_sequence(st, fr, it)
         idx, inv = self.loop_spec(s, fr)
         if inv is None:
@@ -598,7 +604,7 @@ class StmtMixin:
             # the loop head changed: the invariant is still applied by ordinal (a failing VC is then
             # reported against the property); the mismatch is recorded in the evidence
             self.stats['dropped'].add('loop signature changed: %s loop[%s]: %r != %r' % (fr.qual, idx, inv.sig, self.loop_sig(s)))
-        return self.loop_vc(s, st, fr, idx, inv, seqv)
+        return self.loop_vc(s, st, fr, idx, inv, seqv, it if isinstance(ops.kind_of(it), KList) else None)
 
     def unroll(self, s, st, fr, items):
         outs = []
@@ -624,7 +630,13 @@ class StmtMixin:
 
     def havoc_for_loop(self, s, st, fr, body_stmts, extra_names=(), bind=None):
         """Havoc everything the loop body may modify; found by a dry run."""
-        names = assigned_names(body_stmts) | set(extra_names)
+        indirect = set()
+        names = assigned_names(body_stmts, indirect) | set(extra_names)
+        for n in indirect:
+            v = st.env.get(n)
+            if isinstance(v, LocalDict) or (isinstance(v, SVal) and isinstance(v.kind, (KList, KDict, KSet, KCounter, KOpt))) \
+                    or isinstance(v, TupleVal):
+                names.add(n)
         # dry run to find modified heap keys
         self.dry += 1
         try:
@@ -702,12 +714,16 @@ class StmtMixin:
             v = self.ev1(self.parse_spec(text), st, f2)
             st.assume(asz(truthy(v)))
 
-    def loop_vc(self, s, st, fr, idx, inv, seqv):
+    def loop_vc(self, s, st, fr, idx, inv, seqv, seqval=None):
         n, get = seqv
+        sq = {'_seq': seqval} if seqval is not None else {}
+        if seqval is not None and seqval.t[1].get_id() in self.snapshot_idx:
+            # iteration over a dict/set snapshot: _pos(key) is the position of a key in the iteration order
+            sq['_pos'] = FuncVal('builtin', qual='zfunc.pos', py=(self.snapshot_idx[seqval.t[1].get_id()], KInt))
         outs = []
         entry = st.copy()
         zero = z3.IntVal(0)
-        self.check_inv(st, fr, inv, idx, 'entry', entry, {'_i': ops.SI(zero), '_n': ops.SI(n)})
+        self.check_inv(st, fr, inv, idx, 'entry', entry, dict(sq, _i=ops.SI(zero), _n=ops.SI(n)))
         # arbitrary iteration
         body_st = st.copy()
         i = z3.Int(fresh_name('i'))
@@ -718,7 +734,7 @@ class StmtMixin:
         self.loop_frame(body_st, changed, 'assume')
         exit_st = body_st.copy()
         body_st.assume(i >= 0, i < n)
-        extra = {'_i': ops.SI(i), '_n': ops.SI(n)}
+        extra = dict(sq, _i=ops.SI(i), _n=ops.SI(n))
         self.assume_inv(body_st, fr, inv, idx, entry, extra)
         if self.feasible(body_st):
             self.canary(body_st, '%s#loop[%d].canary' % (fr.prefix, idx))
@@ -737,7 +753,7 @@ class StmtMixin:
                     fr.bound = saved
                 for s3, oc3 in body_outs:
                     if oc3 is NEXT or oc3 is CONT:
-                        self.check_inv(s3, fr, inv, idx, 'preserve', entry, {'_i': ops.SI(i + 1), '_n': ops.SI(n)})
+                        self.check_inv(s3, fr, inv, idx, 'preserve', entry, dict(sq, _i=ops.SI(i + 1), _n=ops.SI(n)))
                         self.loop_frame(s3, changed, 'check', '%s#loop[%d]' % (fr.prefix, idx))
                     elif oc3 is BREAK:
                         s3.marks['broke_%d' % idx] = True
@@ -746,7 +762,7 @@ class StmtMixin:
                         outs.append((s3, oc3))
         # normal exit
         exit_st.assume(i == n)
-        self.assume_inv(exit_st, fr, inv, idx, entry, {'_i': ops.SI(n), '_n': ops.SI(n)})
+        self.assume_inv(exit_st, fr, inv, idx, entry, dict(sq, _i=ops.SI(n), _n=ops.SI(n)))
         if self.feasible(exit_st):
             outs += self.ex(s.orelse, exit_st, fr)
         return outs
